@@ -33,11 +33,12 @@ MANIFEST = {
             "pattern replacement, compact) preserves the function of every sink of every topologically ordered AIG. Tables are regenerated "
             "from the source on each run; the models are tied to the code by exhaustive (npn) and generated (patterns, AIGs: identical "
             "result graphs) correspondence, and the property's own oracle (independent python evaluation) runs on the implementation's "
-            "output, including aigify -> rewrite -> techmap on netlists synthesized from generated designs.",
+            "output, including aigify -> rewrite -> techmap on netlists synthesized from generated designs and a comparison of the aig-flow "
+            "netlist with the default-flow netlist at every output and flip-flop / RAM pin.",
     "note": "Trusted: Coq kernel; hand-written models coq/Gate/{Npn4Model,AigModel}.v (u16/u32 as unbounded N/nat, HashMap order as arbitrary "
             "list order, eval_tt memo omitted, panics as None); translator translators/npn.py; vh-npn harness; OCaml extraction + driver; "
             "python generators and reference evaluators. Not modelled in Coq: aig/convert.rs (aigify, aig_to_cells) and aig/techmap.rs — "
-            "covered per netlist by the exhaustive functional comparison only. Panic-freedom of rewrite is validated, not proved. "
+            "covered per netlist / per generated AIG by the exhaustive functional comparison only. "
             "No axioms (Print Assumptions: closed).",
 }
 
@@ -132,7 +133,7 @@ def judge_synth(line, rng):
         if err:
             bad.append(("e2e-structure:" + label, "%s netlist: %s" % (label, err[0])))
         if multi:
-            bad.append(("e2e-structure:" + label, "%s netlist: net %d is driven by two cells" % (label, multi[0])))
+            info.setdefault("multi_driven", {})[label] = len(multi)
         return sinks, aux
 
     s0, x0 = gate_vals(g0, "input")
@@ -164,6 +165,89 @@ def judge_synth(line, rng):
         if d:
             bad.append((key, "%s: %s" % (what, d)))
     return bad, info
+
+
+def pin_functions(g, rng_seed, nvec=2048):
+    """function of every consumed pin of a netlist over keys that are stable across synthesis flows:
+    input port bits (port index, bit), FF Q (ff index), RAM read data (ram, port, bit); any other undriven net
+    that is read is a free variable of its own.  Returns (labels, values, mask) or an error string."""
+    rng = random.Random(rng_seed)
+    keys = []
+    pidx = 0
+    for d, nets in g.ports:
+        if d in ("i", "x"):
+            for b, n in enumerate(nets):
+                keys.append((("pi", pidx, b), n))
+        pidx += 1
+    for i, f in enumerate(g.ffs):
+        keys.append((("q", i), f["q"]))
+    for ri, r in enumerate(g.rams):
+        for pi_, p in enumerate(r["reads"]):
+            for b, n in enumerate(p["data"]):
+                keys.append((("rd", ri, pi_, b), n))
+    mask = (1 << nvec) - 1
+    vals = {}
+    for key, net in keys:
+        # the same key gets the same pattern in every netlist: derive it from the key
+        vals[net] = random.Random(repr(key) + str(rng_seed)).getrandbits(nvec)
+    known = set(vals)
+    for n in G.gate_primary_inputs(g):
+        if n not in known:
+            vals[n] = random.Random("free%d:%d" % (n, rng_seed)).getrandbits(nvec)
+    val, err, multi = G.gate_eval(g, vals, mask)
+    labels = []
+    out = []
+    pidx = 0
+    for d, nets in g.ports:
+        if d in ("o", "x"):
+            for b, n in enumerate(nets):
+                labels.append("output port %d bit %d" % (pidx, b))
+                out.append(val(n))
+        pidx += 1
+    for i, f in enumerate(g.ffs):
+        labels += ["ff %d D" % i, "ff %d clock" % i]
+        out += [val(f["d"]), val(f["clock"])]
+        if f["reset"]:
+            labels.append("ff %d reset" % i)
+            out.append(val(f["reset"][0]))
+    for ri, r in enumerate(g.rams):
+        labels.append("ram %d clock" % ri)
+        out.append(val(r["clock"]))
+        for wi, w in enumerate(r["writes"]):
+            for nm, lst in (("addr", w["addr"]), ("data", w["data"]), ("enable", [w["enable"]]), ("mask", w["mask"] or [])):
+                for b, n in enumerate(lst):
+                    labels.append("ram %d write port %d %s %d" % (ri, wi, nm, b))
+                    out.append(val(n))
+        for pi_, p_ in enumerate(r["reads"]):
+            for b, n in enumerate(p_["addr"]):
+                labels.append("ram %d read port %d addr %d" % (ri, pi_, b))
+                out.append(val(n))
+    if err:
+        return "netlist without a defined function: %s" % err[0]
+    return labels, out, mask
+
+
+def judge_flow(ref_netlist, aig_netlist):
+    """the netlist synthesized WITH the aig pass against the one synthesized WITHOUT it: every output bit and
+    every flip-flop / RAM pin must compute the same function of inputs, FF outputs and RAM read data."""
+    r = G.parse_gate(ref_netlist)
+    a = G.parse_gate(aig_netlist)
+    if len(r.ffs) != len(a.ffs) or len(r.rams) != len(a.rams):
+        return [("flow-structure", "with the aig pass the netlist has %d flip-flops / %d RAMs, without it %d / %d"
+                 % (len(a.ffs), len(a.rams), len(r.ffs), len(r.rams)))]
+    fr = pin_functions(r, 5)
+    fa = pin_functions(a, 5)
+    if isinstance(fr, str):
+        return []          # the reference flow is not C21's subject
+    if isinstance(fa, str):
+        return [("flow-structure", "with the aig pass: " + fa)]
+    if fr[0] != fa[0]:
+        return [("flow-structure", "pin lists differ: %d vs %d pins" % (len(fr[0]), len(fa[0])))]
+    for lab, x, y in zip(fr[0], fr[1], fa[1]):
+        if x != y:
+            kind = "ff-clock-reset" if ("clock" in lab or "reset" in lab) and lab.startswith("ff") else "pin"
+            return [("flow-" + kind, "%s computes a different function with the aig pass enabled than without it" % lab)]
+    return []
 
 
 # ----------------------------------------------------------------------------------------------- shrinking
@@ -277,12 +361,23 @@ def run(tier, seed, replay):
             print("replay:", o[:400])
             for k, w in judge_rw(o, random.Random(1)):
                 res.violation(k, w, rp)
+        elif kind == "tm":
+            o = impl([("tm %s %s %s %s" % (rp["mode"], rp["nodes"], rp["sinks"], rp.get("rw", ""))).strip()])[0]
+            print("replay:", o[:400])
+            for k, w in judge_tm(o, random.Random(1)):
+                res.violation(k, w, rp)
         elif kind == "synth":
             o = impl(["synth %s %s" % (G.hexsrc(rp["src"]), rp.get("top", "Top"))], timeout=900)[0]
             print("replay:", o[:200])
             if o.startswith("OK"):
                 for k, w in judge_synth(o, random.Random(1))[0]:
                     res.violation(k, w, rp)
+                rok, refbin, rlog = C.harness_build("vh-synth")
+                if rok:
+                    ro = C.run_lines(refbin, ["synth %s %s sky130:1024,16,8,65536" % (G.hexsrc(rp["src"]), rp.get("top", "Top"))], timeout=900)[0]
+                    if ro.startswith("OK ok # "):
+                        for k, w in judge_flow(ro[3:].split(" # ")[1], o[3:].split(" | ")[0]):
+                            res.violation(k, w, rp)
             elif not o.startswith("ERR"):
                 res.violation("e2e-panic", o[:300], rp)
         return res.finish()
@@ -395,7 +490,6 @@ def run(tier, seed, replay):
         res.obligation("model: pat_tt = key and wf_pat for every library entry", not lm, str(lm[:2]))
         if lm:
             corr_bad.append(("library", str(lm[0])))
-    libtext = lo[3:] if lo.startswith("OK ") and len(lo) > 3 else "-"
 
     # 5d. transform_pattern
     tps = []
@@ -459,14 +553,14 @@ def run(tier, seed, replay):
         for k, w in bad:
             rw_bad.append((i, k, w))
         if o.startswith("OK "):
-            before, after = o[3:].split(" | ")
+            before, after, plib = o[3:].split(" | ")
             nb = before.split(" ")[0].count("a")
             na = after.split(" ")[0].count("a")
             if na < nb:
                 saved += 1
             if nb >= 3:
                 distinct.add("rw" + before)
-            model_lines.append("rw %s %s" % (libtext, before))
+            model_lines.append("rw %s %s" % (plib, before))
             model_idx.append(i)
         if i < 2:
             res.sample({"kind": "rw", "mode": c[0], "program": c[1][:200], "sinks": c[2], "result": o[:300]})
@@ -483,7 +577,8 @@ def run(tier, seed, replay):
     if mok:
         res.obligation("correspondence: model rewrite builds the identical graph on %d AIGs" % len(model_lines), not rw_mism, str(rw_mism[:1])[:400])
     if rw_mism:
-        corr_bad.append(("rewrite", "case %s: model %s impl %s" % (cases[rw_mism[0][0]][1][:200], rw_mism[0][1], rw_mism[0][2])))
+        c0 = cases[rw_mism[0][0]]
+        corr_bad.append(("rewrite", "rw %s %s %s: model %s impl %s" % (c0[0], c0[1], c0[2], rw_mism[0][1], rw_mism[0][2])))
     reported = set()
     for i, k, w in rw_bad:
         if k in reported:
@@ -501,6 +596,48 @@ def run(tier, seed, replay):
         o2 = impl(["rw %s %s %s" % (mode, a, b)])[0]
         res.violation(k, w, {"kind": "rw", "mode": mode, "nodes": a, "sinks": b, "impl": o2[:2000]})
 
+    # 5e'. technology mapping of generated AIGs (with and without the rewrite in front)
+    ntm = 300 if tier == "quick" else 6000
+    tmc = []
+    for i in range(ntm):
+        if rng.random() < 0.85:
+            ops, sinks, tags = G.gen_api_aig(rng, shape=rng.choice(["xormux", "xormux", "random", "redundant", "reconv", "chain"]))
+            tmc.append(("api", ops, sinks, "rw" if rng.random() < 0.5 else ""))
+        else:
+            nodes, sinks = G.gen_raw_aig(rng, extra_const=False)
+            txt = G.show_aig(nodes, sinks).split(" ")
+            tmc.append(("raw", txt[0], txt[1], "rw" if rng.random() < 0.5 else ""))
+    io = impl([("tm %s %s %s %s" % c).strip() for c in tmc], timeout=1200)
+    tm_bad = []
+    kinds_seen = {}
+    for i, (c, o) in enumerate(zip(tmc, io)):
+        for k, w in judge_tm(o, rng):
+            tm_bad.append((i, k, w))
+        if o.startswith("OK "):
+            for rec in o[3:].split(" | ")[1].split(";"):
+                if rec.startswith("C "):
+                    kk = rec.split(" ")[1]
+                    kinds_seen[kk] = kinds_seen.get(kk, 0) + 1
+    nevals += len(tmc)
+    res.coverage["techmap_cell_kinds"] = kinds_seen
+    res.obligation("oracle: aig_to_cells_techmap / aig_to_cells outputs compute the AIG sinks on %d generated AIGs" % len(tmc), not tm_bad)
+    reported = set()
+    for i, k, w in tm_bad:
+        if k in reported:
+            continue
+        reported.add(k)
+        mode, a, b, rwf = tmc[i]
+        if mode == "api":
+            def pred(ops, sinks):
+                o2 = impl([("tm api %s %s %s" % (ops, sinks, rwf)).strip()])[0]
+                return any(kk == k for kk, _ in judge_tm(o2, random.Random(7)))
+            try:
+                a, b = shrink_api(binary, a, b, pred)
+            except Exception:
+                pass
+        o2 = impl([("tm %s %s %s %s" % (mode, a, b, rwf)).strip()])[0]
+        res.violation(k, w, {"kind": "tm", "mode": mode, "nodes": a, "sinks": b, "rw": rwf, "impl": o2[:3000]})
+
     # 5f. end to end on netlists synthesized from generated designs
     nd = 48 if tier == "quick" else 600
     designs = []
@@ -517,7 +654,17 @@ def run(tier, seed, replay):
         except Exception as ex:
             res.notes.append("synthdesigns generator not usable: %s" % ex)
     io = impl(["synth %s %s" % (G.hexsrc(d["src"]), d["top"]) for d in designs], timeout=2400)
+    # the same designs through the default build (no aig pass): reference netlists for the cross-flow comparison
+    rok, refbin, rlog = C.harness_build("vh-synth")
+    res.obligation("harness build vh-synth (default features: reference flow without the aig pass)", rok, rlog[-300:])
+    refs = [None] * len(designs)
+    if rok:
+        ro = C.run_lines(refbin, ["synth %s %s sky130:1024,16,8,65536" % (G.hexsrc(d["src"]), d["top"]) for d in designs], timeout=2400)
+        for i, o in enumerate(ro):
+            if o.startswith("OK ok # "):
+                refs[i] = o[3:].split(" # ")[1]
     e2e_bad = []
+    nflow = 0
     nok = 0
     exh = 0
     model_lines = []
@@ -539,19 +686,26 @@ def run(tier, seed, replay):
         res.hist("e2e_inputs", "<=14 exhaustive" if info["exhaustive"] else ">14 random-4096")
         if info["rams"]:
             res.hist("e2e_with_ram", "yes")
+        for lab, cnt in info.get("multi_driven", {}).items():
+            res.hist("e2e_nets_with_several_equal_drivers", lab, cnt)
         for k, w in bad:
             e2e_bad.append((i, k, w))
+        if refs[i] is not None:
+            nflow += 1
+            for k, w in judge_flow(refs[i], o[3:].split(" | ")[0]):
+                e2e_bad.append((i, k, w))
         if info["ands"] >= 3:
             distinct.add("e2e" + d["src"])
         parts = o[3:].split(" | ")
         if info["ands"] <= 1500:
-            model_lines.append("rw %s %s" % (libtext, parts[1]))
+            model_lines.append("rw %s %s" % (parts[5], parts[1]))
             model_after.append((i, parts[2]))
         if nok <= 2:
             res.sample({"kind": "synth", "tags": d["tags"], "info": info})
     nevals += nok
     res.coverage["designs_synthesized"] = nok
     res.coverage["designs_exhaustive"] = exh
+    res.coverage["designs_compared_with_default_flow"] = nflow
     res.obligation("oracle: aigify / rewrite / techmap / round trip keep every sink function on %d synthesized netlists (%d exhaustively)"
                    % (nok, exh), not e2e_bad and nok > 0)
     mo = mdl(model_lines, timeout=3000)
@@ -579,7 +733,7 @@ def run(tier, seed, replay):
 
     if corr_bad and not res.violations:
         res.violation("correspondence", "implementation and model differ (%s) but the property's oracle found no failing input: %s"
-                      % (corr_bad[0][0], corr_bad[0][1][:300]),
+                      % (corr_bad[0][0], corr_bad[0][1][:1500]),
                       {"no_longer_checks": "correspondence vh-npn = VV.Gate models (%s)" % ", ".join(sorted(set(c[0] for c in corr_bad))),
                        "detail": [list(c) for c in corr_bad[:5]]}, no_input=True)
     if not proved and not res.violations:
@@ -629,10 +783,47 @@ def judge_tp(pattern, perm, in_neg, out_neg, line):
     return bad
 
 
+def judge_tm(line, rng):
+    """OK aig | techmap netlist | aig_to_cells netlist: the output port bits must compute the AIG's sinks"""
+    if not line.startswith("OK "):
+        return [("techmap-panic", "aig_to_cells_techmap / aig_to_cells panicked: %s" % line[:300])]
+    aig, t1, t2 = line[3:].split(" | ")
+    nodes, sinks = G.parse_aig(aig)
+    keys = G.aig_origins(nodes)
+    vals, mask, exh = G.patterns_for(keys, rng)
+    want = [v for _, v in G.aig_eval(nodes, sinks, vals, mask)]
+    bad = []
+    for label, key, txt in (("aig_to_cells_techmap", "techmap-sink", t1), ("aig_to_cells", "aig-to-cells-sink", t2)):
+        g = G.parse_gate(txt)
+        val, err, multi = G.gate_eval(g, vals, mask)
+        outs = []
+        for d, nets in g.ports:
+            if d == "o":
+                outs += nets
+        got = [val(n) for n in outs]
+        extra = [n for n in G.gate_primary_inputs(g) if n not in keys]
+        if err:
+            bad.append((key, "%s produced a netlist without a defined function: %s" % (label, err[0])))
+        elif extra:
+            bad.append((key, "%s netlist reads undriven net %d" % (label, extra[0])))
+        elif len(got) != len(want):
+            bad.append((key, "%s: %d output bits for %d sinks" % (label, len(got), len(want))))
+        else:
+            for i, (a, b) in enumerate(zip(want, got)):
+                if a != b:
+                    d = a ^ b
+                    m = (d & -d).bit_length() - 1
+                    asg = {k: (vals[k] >> m) & 1 for k in keys}
+                    bad.append((key, "%s: output bit %d (net %d) is %d, the AIG sink is %d under inputs %s"
+                                % (label, i, outs[i], (b >> m) & 1, (a >> m) & 1, asg)))
+                    break
+    return bad
+
+
 def judge_rw(line, rng):
     if not line.startswith("OK "):
         return [("rewrite-panic", "rewrite panicked / failed: %s" % line[:300])]
-    before, after = line[3:].split(" | ")
+    before, after = line[3:].split(" | ")[:2]
     d = eval_aig_pair(before, after, rng)
     if d:
         return [("rewrite-sink", "rewrite changed a sink function: " + d)]
